@@ -26,7 +26,12 @@ Definition AZP := ANilStructPtr.       (* a nil pointer of type pointer-to-T, T 
 
 Inductive mode :=
 | MNew (allow : bool) (extra : list name)        (* NewStore{Structs: {ptr, prefix}, Secrets: extra} *)
-| MApp (allow : bool) (declared : list name).    (* store built over `declared`, then ParseFields + Apply *)
+| MApp (allow : bool) (declared : list name)     (* store built over `declared`, then ParseFields + Apply *)
+| MDecl (allow : bool) (extra : list name) (sec1 sec2 : list name).
+       (* f := ParseFields; NewStore{Secrets: f.Secrets() (the very slice; ++ extra)}; the harness then
+          sorts / reverses / overwrites that slice; f.Apply; f.Secrets() again.
+          sec1, sec2 = what the two Secrets() calls returned (OBSERVATIONS, carried here to leave the
+          shape of `obs` alone) *)
 
 (* one leaf field after the run: unchanged?, native projection (value token), JSON projection
    (decode-result token), value token served by a handle after the refresh (0 = not a handle / no store) *)
@@ -127,6 +132,18 @@ Definition check_run (md : mode) (a : arg) (pfx : bstr) svc unmfail jt (o : obs)
       match parse_apply jdec unm_ok ans 0%Z a pfx (initial_store allow declared ans) with
       | (_, inl _, _) => rejected
       | (s', inr frs, rq) => applied true true [] s' frs rq
+      end
+    | MDecl allow extra sec1 sec2 =>
+      match parse_fields a with
+      | inl _ => rejected && list_beq bytes_beq sec1 [] && list_beq bytes_beq sec2 []
+      | inr pfs =>
+        (* Secrets(): the names in FIELD order, both times *)
+        list_beq bytes_beq sec1 (secrets_of pfx pfs)
+        && match declare_apply jdec unm_ok ans 0%Z allow extra (fun l => l) a pfx with
+           | (NSInitMissing _, s2) => N.eqb ec 3 && list_beq bytes_beq sec2 s2
+           | (NSDone init_rq s' frs rq, s2) => applied false true init_rq s' frs rq && list_beq bytes_beq sec2 s2
+           | _ => false
+           end
       end
     | MNew allow extra =>
       match new_store jdec unm_ok ans 0%Z allow extra a pfx with
